@@ -2,6 +2,7 @@ import OdcGeo.Model.C04
 import OdcGeo.Model.C04Roi
 import OdcGeo.Model.C04Args
 import OdcGeo.Model.C04Dtype
+import OdcGeo.Model.C04Np
 import OdcGeo.Drv.C17
 namespace OdcGeo.C04.Drv
 open OdcGeo OdcGeo.IO OdcGeo.C17 OdcGeo.C04 OdcGeo.NpArray
@@ -136,6 +137,44 @@ def parseFill? (s : String) : Option FillArg :=
 def fmtFillV : FillV → String
   | .nan => "nan" | .zero => "0" | .given => "given"
 
+/-- integer argument: `p:<v>` (Python int) or `u8:<v>` / `i16:<v>` (numpy scalar) -/
+def parseIntArg? (s : String) : Option IntArg :=
+  match s.splitOn ":" with
+  | ["p", v] => (parseInt? v).map IntArg.py
+  | [t, v] => do
+    let d ← parseDT? t
+    let v ← parseInt? v
+    match d.kind with
+    | .u => pure (.np ⟨false, d.bits⟩ v)
+    | .i => pure (.np ⟨true, d.bits⟩ v)
+    | _ => none
+  | _ => none
+
+def fmtResN {α} (f : α → String) : ResN α → String
+  | .ok a => f a
+  | .error e => e.toStr
+
+def runNp (args : List String) : Option String :=
+  match args with
+  | ["np", "shape", t, i] => do
+    let t ← parseTiling? t; let i ← parseIntArg? i
+    pure (fmtResN fmtInt (tileShapeI t i))
+  | ["np", "locate", t, i] => do
+    let t ← parseTiling? t; let i ← parseIntArg? i
+    pure (fmtResN fmtInt (locateI t i))
+  | ["np", "get", t, i] => do
+    let t ← parseTiling? t; let i ← parseIntArg? i
+    pure (fmtResN fmtNS (getItemI t i))
+  | ["np", "shapefound", ch, i] => do
+    let ch ← parseInts? ch; let i ← parseIntArg? i
+    pure (fmtResN fmtInt (vtileShapeAsFound ch i))
+  | _ => none
+
+def parseCasting? (s : String) : Option Casting :=
+  match s with
+  | "no" => some .no | "equiv" => some .equiv | "safe" => some .safe | "same_kind" => some .sameKind
+  | "anycast" => some .anyCast | _ => none
+
 def runDtype (args : List String) : Option String :=
   match args with
   | ["dt", "rt", l] => do
@@ -150,6 +189,19 @@ def runDtype (args : List String) : Option String :=
   | ["dt", "init", l] => do
     let l ← parseList? parseDT? l
     pure (fmtDT (assemblerDtype l))
+  | ["dt", "ccast", rule, a, b] => do
+    let r ← parseCasting? rule; let a ← parseDT? a; let b ← parseDT? b
+    pure (fmtBool (canCast r a b))
+  | ["dt", "extractc", l, dtype, fill, rule] => do
+    let l ← parseList? parseDT? l; let dtype ← parseOpt? parseDT? dtype; let fill ← parseFill? fill
+    let r ← parseCasting? rule
+    match fill, fillMinType fill with
+    | .int _, none => pure "object"
+    | _, _ =>
+      match extractFull l dtype fill r with
+      | .error .overflow => pure "ERR:OverflowError"
+      | .error .typeError => pure "ERR:TypeError"
+      | .ok d => pure (fmtDT d)
   | ["dt", "extract", l, dtype, fill] => do
     -- blocks' dtypes, the `dtype=` argument, the fill → allocated dtype and the fill written
     let l ← parseList? parseDT? l; let dtype ← parseOpt? parseDT? dtype; let fill ← parseFill? fill
@@ -161,7 +213,7 @@ def runDtype (args : List String) : Option String :=
       match extractAlloc l dtype fill with
       | .error _ => pure "ERR:OverflowError"
       | .ok d => pure s!"{fmtDT d} {fmtFillV (effFill d given)}"
-  | _ => none
+  | _ => runNp args
 
 def runArgs (args : List String) : Option String :=
   match args with
@@ -214,7 +266,7 @@ def runArgs (args : List String) : Option String :=
     let tiles ← if ty = "N" ∧ tx = "N" then some none
       else do let ty ← parseTiling? ty; let tx ← parseTiling? tx; pure (some (⟨ty, tx⟩ : Tiling2))
     pure (fmtRes (fun g => s!"{fmtGBox g.base} | {fmtTilingTok g.tiles.y} {fmtTilingTok g.tiles.x} | {fmtTiling2 g.tiles}")
-      (gbtInit ⟨ny, nx, A⟩ how tiles))
+      (gbtInitR ⟨ny, nx, A⟩ how tiles))
   | ["planesw", lead, trail, yx] => do
     let lead ← parseList? parseNat? lead; let trail ← parseList? parseNat? trail
     let yx ← parseOpt? (parseList? parsePIdx?) yx
